@@ -463,9 +463,19 @@ def run(tier, pid="C15"):
         jobs = [("sp_AT.cfg", False), ("sp_B.cfg", False), ("sp_BT.cfg", False), ("sp_D.cfg", "both"), ("sp_DT.cfg", False),
                 ("sp_R.cfg", True)]  # fmt: skip
     old = {sig: signal.getsignal(sig) for _, sig in SIGS}
+    # quick tier: the (small) TLC runs go side by side, their results are consumed in the fixed job order
+    from concurrent.futures import ThreadPoolExecutor
+
+    par = len(jobs) if tier == "quick" else 1
+    pool = ThreadPoolExecutor(max_workers=par)
+    futures = [
+        pool.submit(tlc.run_tlc, "twisted", "MCSpinner", cfg, coverage=True, workers=8 if par == 1 else 4, timeout=1500, heap="4g")
+        for cfg, _ in jobs
+    ]
+    pool.shutdown(wait=False)
     try:
-        for cfg, real in jobs:
-            r = tlc.run_tlc("twisted", "MCSpinner", cfg, coverage=True, workers=8, timeout=1500)
+        for (cfg, real), fut in zip(jobs, futures):
+            r = fut.result()
             tlc.require_ok(r, "C15 " + cfg)
             acts = ACTIONS + (TWO_RUN if cfg not in ("sp_A.cfg", "sp_AT.cfg") else [])
             acts += ["EarlyStop"] if cfg.startswith("sp_D") else []
